@@ -156,6 +156,36 @@ fn crash_pre(node: &Node, dir: &str, queue: &[(String, bool)], _strs: &mut Vec<V
     json!({"snaps": snaps, "keymap_first": !node.dbs.is_oplog_valid.load(std::sync::atomic::Ordering::Relaxed)})
 }
 
+/// after a completed snapshot run: the files of every database that was queued and its entries as they are in memory
+fn snap_post(node: &Node, dir: &str, queue: &[(String, bool)]) -> J {
+    let names: Vec<String> = queue.iter().map(|(d, _)| d.clone()).collect();
+    let files = db_files(dir, &names);
+    let mut out = serde_json::Map::new();
+    let map = node.dbs.map.read().unwrap();
+    for d in names.iter() {
+        let mut fs = serde_json::Map::new();
+        for (kind, _) in DB_FILE_KINDS.iter() {
+            match files.get(&format!("{}/{}", d, kind)).cloned().unwrap_or(None) {
+                Some(b) => fs.insert(kind.to_string(), json!({"ex": true, "b": b})),
+                None => fs.insert(kind.to_string(), json!({"ex": false, "b": []})),
+            };
+        }
+        let mut ents: Vec<J> = vec![];
+        if let Some(db) = map.get(d) {
+            let m = db.map.read().unwrap();
+            let mut ks: Vec<&String> = m.keys().collect();
+            ks.sort();
+            for k in ks {
+                let v = m.get(k).unwrap();
+                ents.push(json!({"k": k.as_bytes(), "v": v.value.as_bytes(), "ver": v.version, "st": state_name_of(v.state),
+                                 "va": v.value_disk_addr, "ka": v.key_disk_addr}));
+            }
+        }
+        out.insert(d.clone(), json!({"files": fs, "ents": ents}));
+    }
+    J::Object(out)
+}
+
 /// what the start-up on an image loaded for the named databases, keys and values as interned byte strings
 fn byte_load(nd: &Node, dbs: &[String], strs: &mut Vec<Vec<u8>>) -> J {
     let mut out = serde_json::Map::new();
@@ -399,7 +429,16 @@ pub fn run_case(case: &J, workdir: &str, out: &mut dyn Write, n: usize) {
             ev["images"] = json!(images);
         } else if st.get("tick").is_some() {
             ev["ev"] = json!("tick");
+            let follow = case["follow_ticks"].as_bool() == Some(true);
+            let queue = if follow { snapshot_queue(&node) } else { vec![] };
+            if follow {
+                let mut strs: Vec<Vec<u8>> = vec![];
+                ev["pre"] = crash_pre(&node, &dir, &queue, &mut strs);
+            }
             ev["r"] = node.tick();
+            if follow {
+                ev["post"] = snap_post(&node, &dir, &queue);
+            }
         } else if let Some(c) = st.get("close").and_then(|c| c.as_str()) {
             // lines still queued for the closing session are reported before it goes
             let pre = node.drain_all();
